@@ -43,16 +43,6 @@ Definition olayer_eqb (a b : olayer) : bool :=
   (c =? c') && option_eqb N.eqb s s' && connst_eqb cc cc' && connst_eqb sc sc'.
 Definition dict_eqb := list_eqb (pair_eqb N.eqb Nat.eqb).
 
-Fixpoint alloc_seq (nx : list N) (calls : list (bool * bool)) : option (list N * list N) :=
-  match calls with
-  | [] => Some ([], nx)
-  | (c, u) :: t =>
-    match get_next_available_stream_id nx c u with
-    | None => None
-    | Some (id, nx') => match alloc_seq nx' t with Some (ids, f) => Some (id :: ids, f) | None => None end
-    end
-  end.
-
 Definition check_case (c : case) : bool :=
   match c with
   | Demux kinds evs o_outs o_err o_cids o_sids o_next o_layers o_done =>
